@@ -18,6 +18,8 @@ SPECIAL_TEXT = [
     ("regex-ties", 'S: A+;\nA: k1 | k2 | k3 | k4 | k5;\nterminals\nk1: /a/;\nk2: /[ab]/;\nk3: /[abc]/;\nk4: /./;\nk5: /a|b/;\n', ["a", "a b", "c a"]),
 ]
 IMPORT_CASES = [
+    ("file:rr-conflicts", "g.pg", {"g.pg": 'Stmt: Call | Decl | Expr;\nCall: name;\nDecl: name;\nExpr: name | Expr "+" Expr;\nterminals\nname: /[a-z]+/;\n'},
+     ["foo", "a + b + c", "a + b"]),
     ("same-named-terminals", "root.pg", {
         "root.pg": 'import "l.pg";\nimport "r.pg";\nS: Item l.End | Item r.End | Item l.SEP | Item r.SEP;\nItem: "x";\n',
         "l.pg": 'End: SEP "l";\nterminals\nSEP: ";";\n',
@@ -76,7 +78,7 @@ def build(tier, seed):
         for s, res in zip(p["seeds"], per_seed):
             o = res[it["name"]]
             if "t1" not in o:
-                o = {"err": o["err"], "t1": {"sha": "", "shaorder": "", "sr": [], "rr": []}, "t2": {"sha": "", "shaorder": "", "sr": [], "rr": []}, "forests": []}
+                o = {"err": o["err"], "t1": {"sha": "", "shaorder": "", "sr": [], "rr": []}, "t2": {"sha": "", "shaorder": "", "sr": [], "rr": []}, "forests": [], "forests2": []}
             obs["s%d" % s] = o
         cases.append({"name": it["name"], "origin": it["origin"], "obs": obs})
     shards = tlcrun.write_shards(cases, scratch() + "/det", max_bytes=3_000_000, min_shards=4)
